@@ -159,6 +159,9 @@ def main():
         d.update(meta["detection"])
         meta["detection"] = d
     meta["needs_to_manifest"] = old.get("needs_to_manifest", "see NOTES.md section (2)")
+    if old.get("history"):
+        now = "; ".join(f"{c}: exit {d['exit']} {d['signatures'][:1]}" for c, d in meta["detection"].items() if c in checks)
+        meta["history"] = old["history"] + (f" | re-run: {now}" if skip_confirm else "")
     meta["ran"] = [f"cargo test --offline{feat} --test {demo_name} (scratch worktree, with and without the patch)", "cargo test --workspace --no-fail-fast --offline --lib (scratch worktree, with the patch)", "cargo build --offline with default / --no-default-features / --features decode (with the patch)", f"git -C /repo apply patch.diff; ./check <id> --tier {tier}; git -C /repo checkout -- ."]
     json.dump(meta, open(f"{dst}/meta.json", "w"), indent=1)
 
